@@ -2,6 +2,7 @@ package main
 
 import (
 	"fmt"
+	"math"
 	"reflect"
 	"sort"
 	"strings"
@@ -455,10 +456,11 @@ func (g *treeGen) leaf() *Node {
 		return nBool(g.r.Bool())
 	case 2:
 		return nStr(lib.Pick(g.r, []string{"", "a", "x", "1"}))
-	case 3:
-		return nFlt(lib.Pick(g.r, []float64{0.5, 1.5, 2.5}))
+	case 3, 4:
+		// floats that equal or neighbour the integers of the pool (10.0 vs 10, 9.0 vs 10, both zeros)
+		return nFlt(lib.Pick(g.r, []float64{0.5, 2.5, 0, math.Copysign(0, -1), 1, 2, 3, 9, 10, 10.5, 11}))
 	default:
-		return nInt(int64(g.r.Intn(5)))
+		return nInt(lib.Pick(g.r, []int64{0, 1, 2, 3, 4, 9, 10, 11, -1}))
 	}
 }
 
@@ -519,13 +521,13 @@ func (g *treeGen) schema(depth int) *schema {
 func (g *treeGen) value(s *schema, maxLen int, uniform bool) *Node {
 	switch s.kind {
 	case 'i':
-		return nInt(int64(g.r.Intn(5)))
+		return nInt(lib.Pick(g.r, []int64{0, 1, 2, 3, 4, 9, 10, 11, -1}))
 	case 's':
 		return nStr(lib.Pick(g.r, []string{"", "a", "x"}))
 	case 'b':
 		return nBool(g.r.Bool())
 	case 'f':
-		return nFlt(lib.Pick(g.r, []float64{0.5, 1.5, 2.5}))
+		return nFlt(lib.Pick(g.r, []float64{0.5, 2.5, 0, math.Copysign(0, -1), 1, 2, 3, 9, 10, 10.5, 11}))
 	case 'a':
 		n := g.r.Intn(maxLen + 1)
 		a := &Node{Kind: 'a'}
